@@ -144,6 +144,39 @@ fn state_fields(repo: &str, out: &mut Out) {
     out.files.insert("StateFields".into(), body);
 }
 
+/// C04 / C01: the reader selects the document it AUTHENTICATES (`get_document`) and the document whose elements it
+/// REPORTS (`parse_namespaces`) by two separate look-ups over `documents`.  Both must be the same first-match look-up
+/// by the mDL docType; the model has one look-up (`select_document`).
+fn reader_document_lookup(repo: &str, out: &mut Out) {
+    use quote::ToTokens;
+    let rdr = parse_file(&format!("{repo}/src/presentation/reader.rs"));
+    let want = ".iter().find(|doc|doc.doc_type==\"org.iso.18013.5.1.mDL\")";
+    let mut ok = true;
+    let mut detail = vec![];
+    for name in ["get_document", "parse_namespaces"] {
+        match find_fn(&rdr, name) {
+            None => { ok = false; detail.push(format!("fn {name} not found in reader.rs")); }
+            Some(f) => {
+                let body: String = f.block.to_token_stream().to_string().chars().filter(|c| !c.is_whitespace()).collect();
+                let n = body.matches(want).count();
+                let other_finds = body.matches(".find(").count() + body.matches(".find_map(").count() + body.matches(".rfind(").count() + body.matches(".position(").count();
+                let suspicious = ["BTreeMap<&", "HashMap<", ".last()", ".rev()", ".filter(|doc", ".nth(", ".skip("].iter().filter(|p| body.contains(**p)).count();
+                if n != 1 || other_finds != 1 || suspicious != 0 {
+                    ok = false;
+                    detail.push(format!("{name}: expected exactly one `documents.iter().find(|doc| doc.doc_type == \"org.iso.18013.5.1.mDL\")` and no other selection of a document (found {n} / {other_finds} look-ups, {suspicious} other selectors)"));
+                }
+            }
+        }
+    }
+    if ok {
+        out.def_bytes("reader_document_doc_type", b"org.iso.18013.5.1.mDL", "reader.rs get_document / parse_namespaces: first document with this docType");
+        out.ok("reader_document_lookup", "get_document and parse_namespaces: the same first-match look-up by docType");
+    } else {
+        out.def_bytes("reader_document_doc_type", b"", "reader.rs: document look-ups not in the expected shape");
+        out.fail("reader_document_lookup", &detail.join("; "));
+    }
+}
+
 /// C18: the literals the emitted messages carry (versions, status tables, cipher suite) and the
 /// table `CoseKey::signature_algorithm` (curve -> COSE algorithm) with the curve identifiers
 fn emitted_literals(repo: &str, out: &mut Out) {
@@ -277,6 +310,7 @@ fn main() {
     session_constants(&repo, &mut out);
     presentation_constants(&repo, &mut out);
     state_fields(&repo, &mut out);
+    reader_document_lookup(&repo, &mut out);
     x509::x509_constants(&repo, &mut out);
     emitted_literals(&repo, &mut out);
     panics::panic_sites(&repo, &mut out);
